@@ -45,7 +45,7 @@ SPECS = [
  ('density_und', 'physical_connectivity', ['M'], [{}], UND_W), ('density_dir', 'physical_connectivity', ['M'], [{}], DIR_W),
  ('clustering_coef_bu', 'clustering', ['M'], [{}], UND_B), ('clustering_coef_bd', 'clustering', ['M'], [{}], DIR_B), ('clustering_coef_wu', 'clustering', ['M'], [{}], UND_W),
  ('clustering_coef_wd', 'clustering', ['M'], [{}], DIR_W),
- ('clustering_coef_wu_sign', 'clustering', ['M'], [{}, {'coef_type': 'zhang'}, {'coef_type': 'constantini'}], SGN),
+ ('clustering_coef_wu_sign', 'clustering', ['M'], [{}, {'coef_type': 'zhang'}, {'coef_type': 'costantini'}], SGN),
  ('transitivity_bu', 'clustering', ['M'], [{}], UND_B), ('transitivity_bd', 'clustering', ['M'], [{}], DIR_B), ('transitivity_wu', 'clustering', ['M'], [{}], UND_W),
  ('transitivity_wd', 'clustering', ['M'], [{}], DIR_W), ('get_components', 'clustering', ['M'], [{}], UND_B + UND_W), ('number_of_components', 'clustering', ['M'], [{}], UND_B),
  ('agreement_weighted', 'clustering', [('arr', [[1, 1, 2], [1, 2, 2]], 'i'), ('arr', [F(1, 2), F(1, 4)], 'f')], [{}], ['bu']),
